@@ -516,6 +516,58 @@ fn blocked_family() -> Value {
                 }
             }
         }
+        // long transactions: N queued INCRs (N around the powers of two and the loop's batch sizes, up to 5000) sent in one
+        // write; EXEC answers N integers 1..N and the counter ends at N; the same queue ended by DISCARD leaves nothing
+        for &len in [1usize, 31, 32, 33, 99, 100, 101, 127, 128, 129, 255, 256, 257, 1000, 1023, 1024, 1025, 5000].iter() {
+            for discard in [false, true] {
+                n += 1;
+                let mut run = || -> Result<Option<String>, String> {
+                    h.ensure()?;
+                    h.aux_call(&["FLUSHALL"])?;
+                    let mut bytes = resp::cmd(&["MULTI"]);
+                    for _ in 0..len {
+                        bytes.extend(resp::cmd(&["INCR", "a"]));
+                    }
+                    bytes.extend(resp::cmd(&[if discard { "DISCARD" } else { "EXEC" }]));
+                    let mut t = h.srv.as_ref().unwrap().connect().map_err(|e| format!("{:?}", e))?;
+                    h.srv.as_ref().unwrap().send_all(&mut t, &bytes).map_err(|e| format!("send: {:?}", e))?;
+                    let (frames, err) = h.collect(&mut t, len + 2, 12);
+                    t.discard();
+                    let a = h.aux_call(&["GET", "a"])?;
+                    if let Some(e) = err {
+                        return Ok(Some(format!("error-{}", e.split(':').next().unwrap_or(""))));
+                    }
+                    if frames.len() != len + 2 {
+                        return Ok(Some(format!("{}-replies-for-{}-requests", frames.len(), len + 2)));
+                    }
+                    if frames[1..=len].iter().any(|f| *f != R::Simple(b"QUEUED".to_vec())) {
+                        return Ok(Some("not-every-command-was-queued".into()));
+                    }
+                    if discard {
+                        if frames[len + 1] != R::ok() || !matches!(a, R::Nil) {
+                            return Ok(Some("DISCARD-left-something-behind".into()));
+                        }
+                    } else {
+                        let fine = match &frames[len + 1] {
+                            R::Arr(v) => v.len() == len && v.iter().enumerate().all(|(i, x)| *x == R::Int(i as i64 + 1)),
+                            _ => false,
+                        };
+                        if !fine {
+                            return Ok(Some(format!("EXEC-answered-{}", resp::class(&frames[len + 1]))));
+                        }
+                        if a != R::Bulk(len.to_string().into_bytes()) {
+                            return Ok(Some("counter-differs-from-the-number-of-queued-commands".into()));
+                        }
+                    }
+                    Ok(None)
+                };
+                match run() {
+                    Ok(Some(p)) => recs.push(json!({"problem": p, "body": format!("MULTI, {} x INCR a, {}", len, if discard { "DISCARD" } else { "EXEC" }), "one_write": true, "class": format!("long-transaction {}", len)})),
+                    Ok(None) => {}
+                    Err(e) => errors.push(format!("long transaction {}: {}", len, e)),
+                }
+            }
+        }
         json!({"recs": recs, "errors": errors, "n": n})
     })
 }
